@@ -129,17 +129,29 @@ func tryEntries(lay []MArch, method int, xffClass string, dir string, id int) []
 		return err
 	})
 	p := filepath.Join(dir, fmt.Sprintf("f%d.wsp", id))
-	rec("Open", func() error {
-		if err := ioutil.WriteFile(p, hb, 0644); err != nil {
-			panic(err)
-		}
-		defer os.Remove(p)
-		db, err := wt.Open(p)
-		if err == nil {
-			db.Close()
-		}
-		return err
-	})
+	var totalPts int64
+	for _, a := range lay {
+		totalPts += a.N
+	}
+	if totalPts <= 50000000 {
+		rec("Open", func() error {
+			if err := ioutil.WriteFile(p, hb, 0644); err != nil {
+				panic(err)
+			}
+			defer os.Remove(p)
+			// a (sparse) file of the length the header implies
+			if totalPts > 0 {
+				if err := os.Truncate(p, int64(len(hb))+12*totalPts); err != nil {
+					panic(err)
+				}
+			}
+			db, err := wt.Open(p)
+			if err == nil {
+				db.Close()
+			}
+			return err
+		})
+	}
 	var total int64
 	for _, a := range lay {
 		total += a.N
